@@ -23,7 +23,7 @@ def PC.sendActive : PC → Bool
 
 /-- pcs of a receive that may still commit a position -/
 def PC.recvActive : PC → Bool
-  | .is1 _ | .r1 _ _ | .r2 _ _ | .r3 _ _ | .r3b _ _ | .r4 _ | .r5 _ _ | .r6 _ | .r7 _ | .rd _ _ | .rc _ _ _
+  | .r1 _ _ | .r2 _ _ | .r3 _ _ | .r3b _ _ | .r4 _ | .r5 _ _ | .r6 _ | .r7 _ | .rd _ _ | .rc _ _ _
   | .r8 _ _ | .r9 _ _ _ | .fg _ _ | .v1 _ | .v2 _ | .v3 _ | .vw _ _ | .vd _ _ | .v4 _ _ => true
   | _ => false
 
@@ -31,7 +31,7 @@ def PC.recvActive : PC → Bool
 def Th.singleRecv (x : Th) : Bool :=
   match x.pc with
   | .v1 _ | .v2 _ | .v3 _ | .vw _ _ | .vd _ _ | .v4 _ _ => true
-  | .is1 _ | .r1 _ _ | .r2 _ _ | .r3 _ _ | .r3b _ _ | .r4 _ | .r5 _ _ | .r6 _ | .r7 _ | .rd _ _ | .rc _ _ _
+  | .r1 _ _ | .r2 _ _ | .r3 _ _ | .r3b _ _ | .r4 _ | .r5 _ _ | .r6 _ | .r7 _ | .rd _ _ | .rc _ _ _
   | .r8 _ _ | .r9 _ _ _ | .fg _ _ => x.single
   | _ => false
 
@@ -81,7 +81,7 @@ def Loc (σ : Ring) (x : Th) : Prop :=
   | .ts h _ =>
       h < σ.head ∧ (∀ s', reg σ s' → σ.pos s' ≤ h) ∧ σ.tag (h % σ.N) ≠ some h ∧ σ.log[h]? = some x.v ∧
       σ.cont (h % σ.N) = some x.v
-  | .is1 p | .r1 p _ | .r2 p _ | .r3 p _ | .r3b p _ => x.single = true → σ.pos s = p
+  | .r1 p _ | .r2 p _ | .r3 p _ | .r3b p _ => x.single = true → σ.pos s = p
   | .r4 p | .r5 p _ | .r6 p | .rd p _ => sawTag σ s p ∧ (x.single = true → σ.pos s = p)
   | .rc p _ c | .r8 p c | .r9 p _ c =>
       sawTag σ s p ∧ (x.single = true → σ.pos s = p) ∧ (σ.pos s ≤ p → c = σ.log[p]?)
